@@ -82,6 +82,27 @@ def cases(rng, tier):
             msg += b"\x00\x01\x00\x01"
             prev = here
         out.append("PARSEM " + bytes(msg).hex())
+    # names inside RDATA that end in a pointer into their own labels (or into earlier RDATA), followed by 0..4 bytes: the
+    # expanded name is longer than the bytes it occupies, which a parser that advances by the expanded length overruns
+    rd_prefix = {45: [b"\x00\x03\x00"], 33: [b"\x00\x01\x00\x02\x00\x50"], 36: [b"\x00\x0a"], 15: [b"\x00\x0a"], 2: [b""], 5: [b""], 12: [b""],
+                 35: [b"\x00\x01\x00\x02\x01a\x01b\x01c"], 46: [b"\x00\x01\x05\x02\x00\x00\x0e\x10" + b"\x00" * 8 + b"\x00\x01"],
+                 47: [b""], 64: [b"\x00\x01"], 65: [b"\x00\x01"], 6: [b""], 17: [b""], 18: [b"\x00\x01"], 21: [b"\x00\x01"], 14: [b""]}
+    for ty, prefixes in rd_prefix.items():
+        for pre in prefixes:
+            name_at = 12 + 1 + 10 + len(pre)
+            inner = name_at + 1
+            for name in (bytes([5, 3]) + b"abc\x00" + bytes([0xC0 | (inner >> 8), inner & 0xFF]),
+                         bytes([7, 1]) + b"a\x03bcd\x00" + bytes([0xC0 | (inner >> 8), inner & 0xFF]),
+                         bytes([0xC0 | (name_at >> 8), name_at & 0xFF]),
+                         bytes([2, 1, 0, 0xC0 | (inner >> 8), inner & 0xFF]),
+                         # the same shapes with offsets that only make sense relative to the RDATA / the name itself
+                         bytes([5, 3]) + b"abc\x00\xc0\x01", bytes([7, 1]) + b"a\x03bcd\x00\xc0\x01", bytes([2, 1, 0, 0xC0, 1]),
+                         bytes([5, 3]) + b"abc\x00" + bytes([0xC0, len(pre) + 1]), bytes([2, 1, 0, 0xC0, len(pre) + 1])):
+                for tail in range(0, 5):
+                    rd = pre + name + b"\x07" * tail
+                    msg = b"\x00\x01\x00\x00\x00\x00\x00\x01\x00\x00\x00\x00" + b"\x00" + ty.to_bytes(2, "big") + b"\x00\x01\x00\x00\x00\x3c" + len(rd).to_bytes(2, "big") + rd
+                    out.append("PARSEM " + msg.hex())
+                    out.append("PARSEM " + (msg + b"\x00\x00\x01\x00\x01\x00\x00\x00\x3c\x00\x04\x01\x02\x03\x04").hex())
     # random bytes
     for _ in range(1500 if tier == "quick" else 30000):
         n = rng.choice([0, 1, 5, 11, 12, 13, 20, 40, 100])
